@@ -29,6 +29,7 @@ ASSUMPTIONS = ["C02/C11: each switch primitive runs exactly the callback it pass
 RULES_DOC = dict(common.SHARED_DOC)
 RULES_DOC["R9"] = c06_refs.DOC
 RULES_DOC["X5"] = common.X5_DOC
+RULES_DOC["X4"] = common.X4_DOC
 RULES_DOC.update({
     "R1": "count-before-publish: inc_num_blocked precedes the BLOCKED release-store in every suspend callback",
     "R2": "push-before-uncount in resume_and_push / thread_yield_to callback (pool loaded before the push); yield_to pre-increment rolled back on error",
@@ -676,6 +677,7 @@ def rule_R7_R8(P, rep):
 
 
 def run(P, rep, tier):
+    common.rule_X4(P, rep)
     common.rule_widths(P, rep, [('ABTI_pool', 'num_blocked'), ('ABTI_pool', 'num_scheds')])
     common.run_shared(P, rep, which=("X1",))
     rule_R1_R3_R4(P, rep)
